@@ -1990,7 +1990,8 @@ def fromto_oracle(u, v, st, R):
     th = abs(uh[0] * vh[1] - uh[1] * vh[0]) if n == 2 else float(np.linalg.norm(np.cross(uh, vh)))
     # collinear band of the 3-d code (|u x v| < 1e-10): R u = +-u, off by at most the angle;
     # outside: the normalised cross product has a relative rounding error of about eps/angle
-    tol = 1e-12 + (2.5 * th if (n == 3 and th < 1e-10) else 4e-16 / max(th, 1e-300) if th < 0.1 else 0.0)
+    tol = 1e-12 + (2.5 * th if (n == 3 and th < 1e-10) else
+                   4e-16 / max(th, 1e-300) if (th < 0.1 and uh.dot(vh) < 0) else 0.0)
     if not close(R.dot(uh), vh, tol):
         bad.append('R u/|u| - v/|v| = {} (tolerance {})'.format(np.abs(R.dot(uh) - vh).max(), tol))
     return bad
@@ -2034,7 +2035,7 @@ def run_fromto(ctx):
         if br == 'generic':
             uh, vh = _unit(u), _unit(v)
             th = float(np.linalg.norm(np.cross(uh, vh)))
-            if th < 0.1:
+            if th < 0.1 and uh.dot(vh) < 0:
                 tol += 8e-16 / th
         expected_br = {'3d/same': 'same', '3d/opposite': 'opposite', '3d/in-band-same': 'same',
                        '3d/in-band-opposite': 'opposite', '3d/near-opposite': 'generic',
@@ -2085,6 +2086,132 @@ def helix_oracle(s, g, ang, dp, step):
     return bad
 
 
+# ---------------------------------------------------------------------------
+# round 4: transform_system called directly (model: tsMatrix2/3 = snap + rotFromToCode)
+
+TS_DEFAULTS = {2: [[0.0, 1.0], [1.0, 0.0]], 3: [[0.0, 0.0, 1.0], [0.0, 1.0, 0.0]]}
+
+
+def tsys_cases(rng, quick):
+    """(class, default, given)"""
+    out = []
+    for rep in range(2 if quick else 8):
+        for n in (2, 3):
+            for d in TS_DEFAULTS[n] + [gen_vec(rng, n)]:
+                generic_default = d not in TS_DEFAULTS[n]
+                da = np.asarray(d, dtype=float)
+                out.append(('generic', d, gen_vec(rng, n)))
+                k = rng.choice([2.5, 0.5, 1.0, 1e-11])
+                out.append(('dilation', d, (k * da).tolist()))
+                out.append(('opposite', d, (-rng.choice([1.0, 3.0]) * da).tolist()))
+                # orthogonal direction of the same length as d
+                if n == 2:
+                    w = np.array([-da[1], da[0]])
+                else:
+                    w = np.cross(da, gen_vec(rng, 3))
+                    w = w / np.linalg.norm(w) * np.linalg.norm(da)
+                if generic_default:
+                    deltas = [(1e-10, 'near-snapped'), (1e-3, 'near-rotated')]
+                else:
+                    deltas = [(1e-9, 'near-snapped'), (6e-9 / max(abs(w).max(), 1e-3) * abs(w).max(), 'near-snapped'),
+                              (3e-8 / max(abs(w).max() / np.linalg.norm(w), 0.3), 'near-rotated'),
+                              (1e-6, 'near-rotated'), (1e-4, 'near-rotated')]
+                for dl, nm in deltas:
+                    out.append((nm, d, (da + dl * w).tolist()))
+                out.append(('long-near', d, (100.0 * (da + 1e-7 * w)).tolist()))
+                # short given vectors: the direction, not the length, should decide
+                out.append(('short-near', d, (1e-3 * (da + 1e-7 * w)).tolist()))
+                out.append(('short-given', d, (rng.choice([1e-8, 3e-9]) * _unit(da + rng.choice([0.1, 0.7]) * w)
+                                              / np.linalg.norm(da)).tolist()))
+                out.append(('zero-given', d, [0.0] * n))
+                out.append(('zero-default', [0.0] * n, gen_vec(rng, n)))
+                out.append(('zero-both', [0.0] * n, [0.0] * n))
+                out.append(('tiny-given', d, (1e-11 * np.asarray(gen_vec(rng, n))).tolist()))
+    return out
+
+
+def tsys_oracle(d, p, st, res):
+    """transform_system(p, d, [e_1..e_n]) on the real code: the principal vector is passed through,
+    the other vectors are transformed by a ROTATION M which takes d/|d| to p/|p| -- up to the
+    snap accepted as an ASSUMPTION of this check at unit scale: directions within 4e-8 rad of the
+    default may be treated as the default (identity).  A larger deviation is a violation."""
+    d, p = np.asarray(d, dtype=float), np.asarray(p, dtype=float)
+    n = len(d)
+    nd, npn = np.linalg.norm(d), np.linalg.norm(p)
+    if (nd == 0) != (npn == 0):
+        return [] if st.startswith('err:ValueError') else ['accepts exactly one zero vector: ' + st]
+    if nd == 0:
+        ok = st == 'ok' and close(np.asarray(res[1:]), np.eye(n), 0)
+        return [] if ok else ['two zero vectors: expected the identity, got ' + st]
+    snapped = bool(np.allclose(p, npn / nd * d))
+    if npn < 1e-10 and not snapped:
+        return [] if st.startswith('err:ValueError') else ['accepts a vector shorter than 1e-10: ' + st]
+    if st != 'ok':
+        return ['raised ' + st]
+    bad = []
+    if not close(res[0], p, 0):
+        bad.append('principal vector changed: {}'.format(np.asarray(res[0]).tolist()))
+    M = np.asarray(res[1:], dtype=float).T
+    if not close(M.T.dot(M), np.eye(n), 1e-12) or abs(np.linalg.det(M) - 1) > 1e-12:
+        bad.append('transformation of the default frame is not a rotation: {}'.format(M.tolist()))
+    dh, ph = d / nd, p / npn
+    th = abs(dh[0] * ph[1] - dh[1] * ph[0]) if n == 2 else float(np.linalg.norm(np.cross(dh, ph)))
+    if snapped:
+        tol = 4e-8
+    else:
+        tol = 1e-12 + (4e-16 / max(th, 1e-300) if (th < 0.1 and dh.dot(ph) < 0) else 0.0)
+        if n == 3 and th < 1e-10:
+            tol += 2.5 * th
+    if not close(M.dot(dh), ph, tol):
+        bad.append('M d/|d| - p/|p| = {} (tolerance {}, snapped={})'.format(
+            np.abs(M.dot(dh) - ph).max(), tol, snapped))
+    return bad
+
+
+def run_tsys(ctx):
+    from odl.tomo.util.utility import transform_system
+    cases = tsys_cases(ctx.rng, ctx.quick)
+    cpi, spi = float(np.cos(np.pi)), float(np.sin(np.pi))
+    lines, res = [], []
+    for nm, d, p in cases:
+        n = len(d)
+        res.append(guarded(lambda: transform_system(np.array(p, dtype=float), np.array(d, dtype=float),
+                                                    [row for row in np.eye(n)])))
+        lines.append('tsys dim={} d={} p={} pi={}'.format(n, vec(d), vec(p), fl([cpi, spi])))
+    outs = core.run_driver('C19', lines)
+    for (nm, d, p), (st, r), ans in zip(cases, res, outs):
+        n = len(d)
+        kind = 'default' if d in TS_DEFAULTS[n] else ('zero' if not any(d) else 'generic-default')
+        desc = {'kind': 'tsys', 'd': list(map(float, d)), 'p': list(map(float, p))}
+        ctx.case(('tsys', n, nm, kind), sample={'case': desc, 'model': ans[:160]} if nm == 'near-snapped' and
+                 len(ctx.samples) < 7 else None)
+        ctx.hit('tsys/{}d/{}'.format(n, nm))
+        for msg in tsys_oracle(d, p, st, r):
+            ctx.violation('transform_system {}d {}{}'.format(n, nm, ' generic-default' if kind == 'generic-default' else ''),
+                          'default={} given={}: {}'.format(d, p, msg), desc)
+        if ans == 'err:value' or st != 'ok':
+            ctx.hit('tsys/model/raises')
+            if not (ans == 'err:value' and st.startswith('err:ValueError')):
+                ctx.disagree(desc, st, ans, stream='tsys-raises')
+            continue
+        br = ans.split()[1].split('=')[1]
+        ctx.hit('tsys/model/' + br)
+        m = parse_ans('ok ' + ans.split()[2])
+        M = np.asarray(r[1:], dtype=float).T
+        if br == 'ident':
+            # exact: the code returns np.eye(n).dot(e_i)
+            if not close(M, np.eye(n), 0):
+                ctx.disagree(desc, M.tolist(), ans, stream='tsys-snap')
+            continue
+        tol = 4e-12
+        dh, ph = _unit(d), _unit(p)
+        th = abs(dh[0] * ph[1] - dh[1] * ph[0]) if n == 2 else float(np.linalg.norm(np.cross(dh, ph)))
+        if n == 3 and th < 0.1 and dh.dot(ph) < 0:
+            tol += 8e-16 / max(th, 1e-300)
+        if m is None or not close(M, m['m'], tol):
+            ctx.disagree(desc, M.tolist(), ans, stream='tsys')
+
+
 def stream(ctx, name, f, *a):
     """A stream must never take the harness down: an exception escaping the guarded calls
     (possible only when the real code returns something of an unexpected kind) is reported
@@ -2120,6 +2247,7 @@ def run(ctx):
     stream(ctx, 'factories', run_factories)
     stream(ctx, 'detectors', run_detectors)
     stream(ctx, 'fromto', run_fromto)
+    stream(ctx, 'tsys', run_tsys)
     stream(ctx, 'helix', run_helix, specs)
     unhit = [b for b in MODEL_BRANCHES if not ctx.branches.get(b)]
     ctx.extra['unhit_model_branches'] = unhit
@@ -2157,6 +2285,11 @@ MODEL_BRANCHES = (
                                '3d/zero', '3d/axis-aligned', '2d/generic', '2d/same', '2d/opposite',
                                '2d/orthogonal', '2d/zero', '2d/axis-aligned', 'model/raises', 'model/same',
                                'model/opposite', 'model/generic', 'model/2d', 'exact')]
+    + ['tsys/{}d/{}'.format(n, c) for n in (2, 3) for c in (
+        'generic', 'dilation', 'opposite', 'near-snapped', 'near-rotated', 'long-near', 'short-near',
+        'short-given', 'zero-given',
+        'zero-default', 'zero-both', 'tiny-given')]
+    + ['tsys/model/raises', 'tsys/model/ident', 'tsys/model/rot']
     + ['helix/period', 'helix/period/shifts'])
 
 
@@ -2174,6 +2307,7 @@ def search(ctx, broken):
         stream(ctx, 'factories', run_factories)
         stream(ctx, 'detectors', run_detectors)
         stream(ctx, 'fromto', run_fromto)
+        stream(ctx, 'tsys', run_tsys)
         stream(ctx, 'helix', run_helix, specs)
     finally:
         real.tier = saved
@@ -2250,6 +2384,12 @@ def replay(ctx, case):
         st, R = guarded(lambda: rotation_matrix_from_to(np.array(case['u'], dtype=float),
                                                         np.array(case['v'], dtype=float)))
         bad = fromto_oracle(case['u'], case['v'], st, R)
+        return '; '.join(bad) if bad else None
+    if kind == 'tsys':
+        from odl.tomo.util.utility import transform_system
+        st, r = guarded(lambda: transform_system(np.array(case['p'], dtype=float), np.array(case['d'], dtype=float),
+                                                 [row for row in np.eye(len(case['d']))]))
+        bad = tsys_oracle(case['d'], case['p'], st, r)
         return '; '.join(bad) if bad else None
     if kind == 'helix':
         s = case['spec']
